@@ -34,10 +34,33 @@ def run(ctx):
             for cmd in (['type', '--binary'], ['type'], ['list'], ['dump']):
                 cases.append(vlib.Case('d%d' % k, {name: img}, ['--file', '@' + name] + cmd + [common.fsp(label, f)],
                                        meta={'cmd': cmd, 'file': f, 'variant': d.variant, 'disc': k}))
+            if label == 'A':
+                # on an Opus disc drive 0 means volume 0A, however many volumes there are
+                cases.append(vlib.Case('d%d' % k, {name: img}, ['--file', '@' + name, 'type', '--binary', common.fsp(None, f)],
+                                       meta={'cmd': ['type', '--binary'], 'file': f, 'variant': d.variant + '-default-volume', 'disc': k}))
+                ctx.count('opus.default-volume.%d-volumes' % len(d.vols))
         # extract-files per volume
         for (label, origin, vlen, cats) in d.volumes():
             cases.append(vlib.Case('d%d' % k, {name: img}, ['--file', '@' + name, '--drive', '0%s' % (label or ''), 'extract-files', '@out'],
                                    dest='out', meta={'cmd': ['extract-files'], 'label': label, 'disc': k, 'absfiles': [f for c in cats for f in c.files], 'variant': d.variant}))
+    # names that differ only in characters a sloppy case-fold would identify (0x40/0x60, 0x5B-0x5E/0x7B-0x7E), in letter case,
+    # or in the top bit: each must deliver its own body
+    pairs = [b'TAB[', b'TAB{', b'A^B', b'A~B', b'X@', b'X`', b'P\\Q', b'P|Q', b'E]', b'E}', b'_U', b'\x7fU'[:2], b'1', b'q']
+    files = []
+    pos = 2
+    for j, nm in enumerate(pairs):
+        body = (b'body-of-%d:' % j) + nm + bytes([j]) * (37 * j % 300)
+        files.append(discs.AbsFile(0x24, nm, False, 0, 0, pos, body))
+        pos += max(1, (len(body) + 255) // 256)
+    files.reverse()
+    dconf = discs.AbsDisc('dfs', 40, 10)
+    dconf.cats = [discs.AbsCat(b'CONFUSE', 0, 0, 400, files)]
+    imgc = dconf.encode(lambda n: bytes(n))
+    for f in files:
+        for cmd in (['type', '--binary'], ['dump']):
+            cases.append(vlib.Case('conf', {'c.ssd': imgc}, ['--file', '@c.ssd'] + cmd + [common.fsp(None, f)],
+                                   meta={'cmd': cmd, 'file': f, 'variant': 'dfs-confusable-names', 'disc': -1}))
+        ctx.count('confusable-name')
     vlib.run_cases(cases, impl['dfs'])
     for c in cases:
         common.compare_model(ctx, c, 'e2e-' + c.meta['cmd'][0])
